@@ -205,7 +205,8 @@ func (m *RWMutex) RLocker() Locker { return (*rlocker)(m) }
 type rlocker RWMutex
 
 //go:norace
-func (r *rlocker) Lock()   { (*RWMutex)(r).RLock() }
+func (r *rlocker) Lock() { (*RWMutex)(r).RLock() }
+
 //go:norace
 func (r *rlocker) Unlock() { (*RWMutex)(r).RUnlock() }
 
